@@ -22,7 +22,7 @@ for d in sorted(glob.glob(os.path.join(HERE, "seeded", "C??-*"))):
         try:
             p = subprocess.run(["./check", pid, "--tier", "quick"], cwd=HERE, capture_output=True, text=True, timeout=1800)
         finally:
-            subprocess.run("git -C /repo checkout -- .", shell=True)
+            subprocess.run("git -C /repo checkout -- . && git -C /repo clean -fdq", shell=True)
         clauses = sorted(set(l.split("clause=")[1].split(" ")[0] for l in p.stdout.splitlines() if "violated clause=" in l))
         r[pid] = {"exit": p.returncode, "caught": p.returncode == 1 and "VIOLATION property=" in p.stdout, "clauses": clauses[:8]}
     res[key] = r
